@@ -5,10 +5,10 @@ sys.path.insert(0, os.path.join(vlib.VERIF, 'tools'))
 import gen_c03_progs as G
 
 IFACES = ['interp', 'mirinterp', 'gen', 'lazy', 'bb']
-# every shape the generator knows except laddr+jmpi inside large functions: generated code for those crashes
-# at -O0 already (open finding, replays corpus/c03_open_laddr_*.mir); laddr/jmpi is still run on the fixed
-# programs of corpus/c03_ifaces.jsonl.  lref data + jmpi is generated.
-FEATS = {'mem', 'switch', 'alloca', 'indirect', 'reftab', 'inline', 'recursion', 'callback', 'ext_va', 'lref'}
+# every shape tools/gen_c03_progs.py knows, except `alloca` in inlinable functions: MIR_link's hoisting of inlined
+# constant-size allocas hands out garbage blocks (reported to C04's owner; it made programs nondeterministic under
+# every interface alike)
+FEATS = {'mem', 'switch', 'laddr', 'lref', 'indirect', 'reftab', 'inline', 'recursion', 'callback', 'ext_va'}
 PDIR = os.path.join(vlib.BUILD, 'c03p')
 
 
@@ -117,14 +117,23 @@ def removable(lines):
     return idx
 
 
-def shrink_prog(exe, text, specs2, calls, opt):
-    """delta-debug calls, then body lines, keeping 'the two runs in specs2 disagree and the reference run is clean'"""
+def death_site(o):
+    """'... CRASH:gen:<func>:<how>:<site>' -> site (innermost library function on the stack)"""
+    w = o[o.index(GEN_FAILED):].split()[0].split(':')
+    return w[4] if len(w) > 4 else 'unknown'
+
+
+def shrink_prog(exe, text, specs2, calls, opt, site=None):
+    """delta-debug calls, then body lines, keeping 'the two runs in specs2 disagree and the reference run is clean'
+    (or, with site, 'the generator still dies at that site')"""
     def bad(t, cs):
         p = write_prog(t, 'shrink')
         outs = run_prog(exe, p, specs2, cs, opt, timeout=60)
         ref = outs[0]
         if 'CRASH' in ref or 'ERROR' in ref or 'NOANSWER' in ref:
             return False
+        if site is not None:
+            return GEN_FAILED in outs[1] and death_site(outs[1]) == site
         return disagree(outs) is not None
     calls = vlib.shrink_list(calls, lambda cs: bad(text, cs), max_steps=40)
     lines = text.split('\n')
@@ -159,9 +168,10 @@ def one_program(chk, exe, rng, k, quick):
     nolref = [f for f in prog['funcs'] if not f['lref']]
     pre = ['gen %s' % rng.choice(nolref)['name']] if nolref and rng.random() < 0.3 else []
     specs = group_specs(rng, prog)
-    # -O0/-O1 only: what differs between the interfaces (thunks, wrappers, shims, bb stubs, direct-call
-    # rewriting) does not depend on the optimisation level; the optimiser at -O2/-O3 is C01's subject and its
-    # defects would drown the interface signal (three were fixed on the way: fixes/C03-1..3)
+    # random programs run at -O0/-O1: what differs between the interfaces (thunks, wrappers, shims, bb stubs,
+    # direct-call rewriting) does not depend on the optimisation level, while at -O2/-O3 the optimiser itself
+    # still miscompiles or dies on ~15% of these programs (census in design/C03.md); its fixed defects are replayed
+    # from the corpus at their own level
     opt = rng.choice([0, 1, 1])
     orders = [pre + calls]
     if len(calls) > 1:
@@ -170,17 +180,23 @@ def one_program(chk, exe, rng, k, quick):
         orders.append(pre + c2)
     calls = pre + calls
     res = None
+    deaths = []
     for cs in orders:
         outs = run_prog(exe, path, specs, cs, opt)
         for s, o in zip(specs, outs):
             chk.count((prog['text'], s, tuple(cs), opt), nontrivial=True)
             chk.dist('iface_runs', s.split(':')[0] if '/' not in s else 'mixed')
             if GEN_FAILED in o:
-                chk.dist('generator_failed', o[o.index(GEN_FAILED):].split()[0].split(':')[-1])
-                if len(chk.cov.setdefault('generator_failed_samples', [])) < 3:
-                    chk.cov['generator_failed_samples'].append('opt %d %s: %s' % (opt, s, o[-60:]))
+                site = death_site(o)
+                chk.dist('generator_died_in', site)
+                deaths.append((site, prog, [specs[0], s], cs, opt))
         d = disagree(outs)
         if d is not None:
+            # a program whose reference run is not reproducible says nothing about the interfaces
+            again = [run_prog(exe, path, [specs[0]], cs, opt)[0] for _ in range(3)]
+            if any(a != outs[0] for a in again):
+                chk.dist('unstable_reference', 1)
+                continue
             res = (prog, specs, cs, opt, d, outs)
             break
     for ft in prog['features']:
@@ -190,7 +206,7 @@ def one_program(chk, exe, rng, k, quick):
     if k < 1:
         chk.sample('program with %d modules, %d functions, features %s; calls: %s' % (
             prog['nmodules'], len(prog['funcs']), ','.join(prog['features']), ' ; '.join(calls)))
-    return res
+    return res, deaths
 
 
 def report(chk, exe, res):
@@ -208,6 +224,19 @@ def report(chk, exe, res):
         specs2[0], outs2[0][:160], specs2[1], outs2[1][:160], opt, ' ; '.join(calls))
     chk.finding(sig, dict(kind='ifaces', text=text, specs=specs2, calls=calls, opt=opt, outs=outs2,
                           original_features=prog['features']), what)
+
+
+def report_death(chk, exe, site, prog, specs2, cs, opt):
+    """The code generator died (signal / exit) while generating: the function cannot run under that interface at
+    all.  One finding per death site (innermost generator function on the stack), so that a listed known finding
+    covers exactly that defect."""
+    known = any(sig == 'gen-died:' + site for sig, _ in chk.known)
+    text, calls = (prog['text'], cs) if known else shrink_prog(exe, prog['text'], specs2, cs, opt, site=site)
+    p = write_prog(text, 'final')
+    outs2 = run_prog(exe, p, specs2, calls, opt)
+    chk.finding('gen-died:' + site, dict(kind='ifaces', text=text, specs=specs2, calls=calls, opt=opt, outs=outs2),
+                'the code generator dies in %s at -O%d (interpreter runs the program): [%s] -> %s  (calls: %s)' % (
+                    site, opt, specs2[1], outs2[1][-120:], ' ; '.join(calls)))
 
 
 def run(chk):
@@ -231,13 +260,20 @@ def run(chk):
             if d is not None:
                 found += 1
                 report(chk, exe, (dict(text=j['text'], features=['corpus']), specs, j['calls'], j.get('opt', 2), d, outs))
+    seen_sites = set()
     for k in range(nprog):
-        res = one_program(chk, exe, rng, k, quick)
+        res, deaths = one_program(chk, exe, rng, k, quick)
+        for site, prog, specs2, cs, opt in deaths:
+            if site in seen_sites:
+                continue
+            seen_sites.add(site)
+            report_death(chk, exe, site, prog, specs2, cs, opt)
+            found += 1
         if res is not None:
             found += 1
             report(chk, exe, res)
-            if found >= 2:
-                break
+        if found >= 3:
+            break
     return found > 0
 
 
